@@ -164,8 +164,18 @@ def getNormalConnection (sl : Slice) (fromSlave : Bool) : Node :=
 
 /-- `getBackendConn` on a session without cached transaction / keep-session
     connections: the node class the connection is taken from, and the value the
-    request context's flag has afterwards (`getBackendKsConn` overwrites it). -/
-def getBackendConn (c : Cfg) (s : Sess) (sl : Slice) (fromSlave : Bool) : Node × Bool :=
+    request context's flag has afterwards (`getBackendKsConn` overwrites it:
+    a keep-session connection is pinned for the whole session and its
+    transactions run on it, so it is taken from the master for every user). -/
+def getBackendConn (_c : Cfg) (s : Sess) (sl : Slice) (fromSlave : Bool) : Node × Bool :=
+  if s.keepSession then (getNormalConnection sl false, false)
+  else if !s.isInTransaction then (getNormalConnection sl fromSlave, fromSlave)
+  else (.master, fromSlave)
+
+/-- `getBackendConn` of the pinned tree (before fix cb8bfb6): `getBackendKsConn`
+    asked for a replica whenever the user was read-only, whatever the
+    transaction state.  Kept for the witness theorem. -/
+def getBackendConnPinned (c : Cfg) (s : Sess) (sl : Slice) (fromSlave : Bool) : Node × Bool :=
   if s.keepSession then
     let f := c.rwFlag == rwReadOnly
     (getNormalConnection sl f, f)
@@ -229,5 +239,84 @@ def doQuery (c : Cfg) (s : Sess) (sl : Slice) (db : Str) (stmtType : Nat) (sql :
         let f := checkExecuteFromSlave c stmtType tokens sql
         let (n, f') := getBackendConn c s sl f
         .ok (.conn n f')
+
+/-! ### multi-statement packets
+
+  `doMultiStmts` runs every piece of a multi-statement COM_QUERY through
+  `doQuery` with the SAME request context: the flag a piece leaves there is
+  what the next piece finds.  `doQuery` writes the flag explicitly in both
+  directions before it takes a connection (`if checkExecuteFromSlave … {
+  SetFromSlave(true) } else { SetFromSlave(false) }`, `handleShow` likewise), so
+  the incoming value only survives where no connection is taken. -/
+
+/-- `doQuery` on a request context whose fromSlave flag is `f0` on entry
+    (`doQuery` itself is the case of a fresh context, `f0 = false`). -/
+def doQueryFrom (f0 : Bool) (c : Cfg) (s : Sess) (sl : Slice) (db : Str) (stmtType : Nat) (sql : Str) : R Route :=
+  match tokenize sql with
+  | .panic => .panic
+  | .fail => .fail
+  | .ok tokens =>
+    if !c.allowWrite && isWriteKind stmtType then .ok .unmodelled
+    else if stmtType == stmtShow then
+      match tokens with
+      | [] => .ok (.failed f0)
+      | _ =>
+        if tokens.length == 2 && toLower (tokens.getD 1 []) == kwDatabases then .ok (.local f0)
+        else
+          let f := handleShowFlag c tokens sql
+          let (n, f') := getBackendConn c s sl f
+          .ok (.conn n f')
+    else if otherWithoutPlan.contains stmtType then .ok .unmodelled
+    else
+      match preDecide true { rules := [], phyDBs := [(db, db)] } db stmtType sql tokens with
+      | .no => .ok .unmodelled
+      | .unshard _ =>
+        let f := checkExecuteFromSlave c stmtType tokens sql
+        let (n, f') := getBackendConn c s sl f
+        .ok (.conn n f')
+
+/-- what the outside sees of a route: where the statement ran -/
+inductive Where where
+  | master | slave | local | failed | unmodelled
+  deriving Repr, DecidableEq
+
+def Route.where_ : Route → Where
+  | .conn .master _ => .master
+  | .conn .slave _ => .slave
+  | .conn .none _ => .failed
+  | .local _ => .local
+  | .failed _ => .failed
+  | .unmodelled => .unmodelled
+
+/-- the flag a route leaves in the request context (`none`: the packet stops here) -/
+def Route.next : Route → Option Bool
+  | .conn .none _ => none
+  | .conn _ f => some f
+  | .local f => some f
+  | .failed _ => none
+  | .unmodelled => none
+
+/-- `doMultiStmts`: the pieces one after the other on one request context; an
+    error ends the packet (and the model stops at a piece it does not follow). -/
+def doMulti (c : Cfg) (s : Sess) (sl : Slice) (db : Str) : Bool → List (Nat × Str) → List Where
+  | _, [] => []
+  | f0, (st, sql) :: rest =>
+    match doQueryFrom f0 c s sl db st sql with
+    | .ok r =>
+      match r.next with
+      | some f => r.where_ :: doMulti c s sl db f rest
+      | none => [r.where_]
+    | _ => []
+
+/-- the same packet with every piece sent alone, on a fresh request context -/
+def doAlone (c : Cfg) (s : Sess) (sl : Slice) (db : Str) : List (Nat × Str) → List Where
+  | [] => []
+  | (st, sql) :: rest =>
+    match doQuery c s sl db st sql with
+    | .ok r =>
+      match r.next with
+      | some _ => r.where_ :: doAlone c s sl db rest
+      | none => [r.where_]
+    | _ => []
 
 end GaeaVerif.RwSplit
